@@ -171,11 +171,12 @@ fn main() {
                     "sweep_refresh_race" => live2::sweep_refresh_race((rounds / 100).max(2), &arg(&args, "--prop").unwrap_or_else(|| "all".to_string())),
                     "async_sweep_refresh_race" => live2::async_sweep_refresh_race((rounds / 100).max(2), &arg(&args, "--prop").unwrap_or_else(|| "all".to_string())),
                     "double_clear" => live2::double_clear((rounds / 25).max(8)),
+                    "clear_after_removes" => live2::clear_after_removes((rounds / 3).max(30), &arg(&args, "--prop").unwrap_or_else(|| "all".to_string())),
                     "transparent_keys" => live2::transparent_keys(rounds),
                     "iip_race" => live2::iip_race((rounds / 20).max(10), &arg(&args, "--prop").unwrap_or_else(|| "all".to_string())),
                     "reentrant_callbacks" => live2::reentrant_callbacks((rounds / 8).max(30)),
                     "validator_race" => live2::validator_race((rounds / 15).max(12)),
-                    "metrics_contention" => live2::metrics_contention((rounds / 100).max(3)),
+                    "metrics_contention" => live2::metrics_contention((rounds / 60).max(5)),
                     "ring_contention" => live2::ring_contention((rounds / 75).max(4)),
                     "policy_busy_lookups" => live2::policy_busy_lookups((rounds / 100).max(3)),
                     "tiny_cleanup_interval" => live::tiny_cleanup_interval((rounds / 25).max(12)),
